@@ -1,7 +1,7 @@
 SPECIFICATION Spec
 CONSTANTS
   Ids = {"x"}
-  MaxLen = 3
+  MaxLen = 4
   MaxDepth = 2
   MixKinds = FALSE
   AsmForms = FALSE
